@@ -282,6 +282,15 @@ def run(tier, seed):
             if any(r != results[0] for r in results):
                 ck.violation("C19:spelling:" + nm, "spellings of %s=%s disagree: %s" % (nm, val, [describe(r) for r in results]),
                              dict(kind="spelling", flag=nm, value=val))
+        # a value that differs from a documented one only in letter case is either refused or means what its lower-case spelling means - never the opposite
+        for v in ("ON", "On", "YES", "Yes", "OFF", "Off", "NO", "No", "oN", "yEs"):
+            for lead in ([], ["-fno-" + nm] if v.lower() in ("on", "yes") else ["-f" + nm]):
+                res = resolve(lead + ["--flag", nm + "=" + v, FILE])
+                ref_ = resolve(lead + ["--flag", nm + "=" + v.lower(), FILE])
+                n += 1
+                if res[0] == "ok" and canon(res) != canon(ref_):
+                    ck.violation("C19:valuecase:%s=%s" % (nm, v), "--flag %s=%s is accepted but does not resolve like %s=%s: %s vs %s" % (nm, v, nm, v.lower(), describe(canon(res)), describe(canon(ref_))),
+                                 dict(kind="valuecase", flag=nm, value=v, lead=lead))
     optflags = [f for f in PF if PD._is_optimization_flag(f) >= 0]
     for f in optflags:
         for level in range(4):
@@ -426,6 +435,11 @@ def replay(path):
         probs = check_config(level, explicit, r)
         print(argv, "->", describe(canon(r)), probs)
         bad = bool(probs)
+    elif k == "valuecase":
+        a = canon(resolve(d["lead"] + ["--flag", d["flag"] + "=" + d["value"], FILE]))
+        b = canon(resolve(d["lead"] + ["--flag", d["flag"] + "=" + d["value"].lower(), FILE]))
+        print(describe(a), "|", describe(b))
+        bad = a[0] == "ok" and a != b
     elif k == "history":
         resolve([FILE])
         want = resolve(d["argv"])
